@@ -2,7 +2,7 @@
    (src/amisc/interpolator.py), per sample and per scalar output, polymorphic in the field operations.
      Lagrange._extend_grids   (137-166)  -> extend_grid
      Lagrange.refine          (168-209)  -> init_weights / extend_weights / refine1
-     Lagrange.predict         (211-265)  -> basis1 / tpredict
+     Lagrange.predict         (211-265)  -> node_tol / basis1 / tpredict
      Lagrange.gradient        (267-340)  -> dbasis1 / tgrad
    and of the MISC combination in Component.predict (component.py:1048-1072) -> misc_predict.
    The tensor sum is written as nested 1-d sums (row-major, last dimension fastest, as
@@ -56,6 +56,16 @@ Definition refine1 (C : F) (old : option (list F * list F)) (pts : list F) : lis
 (* ------------------------------------------------------------------ prediction *)
 Definition snapped (tol x xk : F) : bool := leb K (absF K (x - xk)) tol.
 
+(* the snapping tolerance of one dimension: rel * (max node - min node), the spread being replaced by 1
+   when it is zero (interpolator.py: span = nanmax(x_j) - nanmin(x_j); span[span == 0] = 1; |diff| <= 1e-8 * span) *)
+Definition span (xs : list F) : F :=
+  match xs with
+  | [] => f0
+  | x :: r => fold_left (maxF K) r x - fold_left (minF K) r x
+  end.
+Definition node_tol (rel : F) (xs : list F) : F :=
+  let s := span xs in rel * (if eqb K s f0 then f1 else s).
+
 Definition count_true (l : list bool) : nat := length (filter (fun b => b) l).
 
 (* per-node (diff with snapped entries replaced by 1, snapped flag) *)
@@ -83,6 +93,8 @@ Fixpoint chunks {A} (n sz : nat) (l : list A) : list (list A) :=
 Definition grid := (F * (list F * list F))%type.
 Definition gsize (g : grid) : nat := length (fst (snd g)).
 Definition gsizes (gs : list grid) : nat := fold_right Nat.mul 1%nat (map gsize gs).
+(* the grid of a Lagrange state: tolerance derived from the node spread *)
+Definition mk_grid (rel : F) (xs ws : list F) : grid := (node_tol rel xs, (xs, ws)).
 
 Fixpoint tpredict (gs : list grid) (x : list F) (ys : list F) : F :=
   match gs, x with
